@@ -5,6 +5,7 @@
 // with a custom deterministic IdGenerator (and, in one part, the real RandomIdGenerator) in
 // lock-step with a model: a stack of active spans plus the precedence rule of the statement
 // (explicit valid SpanContext, then explicit Context, then the active span).
+#include <opentelemetry/common/key_value_iterable_view.h>
 #include <opentelemetry/context/runtime_context.h>
 #include <opentelemetry/sdk/resource/resource.h>
 #include <opentelemetry/sdk/trace/random_id_generator.h>
@@ -350,8 +351,17 @@ struct Exec {
     // (no additional choice; the number of spans is part of the canonical state)
     std::string want_attrs, want_links;
     long long n = (long long)spans.size();
-    switch (spans.size() % 3) {
+    switch (spans.size() % 4) {
       case 0: ms.sp = tracer->StartSpan(name.view(), opts); break;
+      case 3: {
+        // the overload that takes the attributes as a KeyValueIterable object (and forwards the options itself)
+        opts.kind = tr::SpanKind::kProducer;
+        std::vector<std::pair<nostd::string_view, opentelemetry::common::AttributeValue>> kv = {{"a", int64_t(n)}};
+        opentelemetry::common::KeyValueIterableView<std::vector<std::pair<nostd::string_view, opentelemetry::common::AttributeValue>>> view(kv);
+        ms.sp = tracer->StartSpan(name.view(), static_cast<const opentelemetry::common::KeyValueIterable &>(view), opts);
+        want_attrs = vf::sfmt("a=int64:%lld;", n);
+        break;
+      }
       case 1:
         opts.kind = tr::SpanKind::kServer;
         ms.sp = tracer->StartSpan(name.view(), {{"a", int64_t(n)}, {"b", "text"}}, opts);
